@@ -388,6 +388,14 @@ class ProvRecord(object):
                 return value
 
         # No conversion possible, return the original value
+        if isinstance(literal, Literal):
+            # its datatype is a qualified name like any other in this record:
+            # make sure the namespace is declared in the record's bundle
+            datatype = literal.datatype
+            if isinstance(datatype, QualifiedName):
+                homed_datatype = self._bundle.valid_qualified_name(datatype)
+                if homed_datatype is not datatype:
+                    literal = Literal(literal.value, homed_datatype, literal.langtag)
         return literal
 
     def add_attributes(self, attributes):
